@@ -178,8 +178,9 @@ static void part_a(report& r)
     for (int kind = 0; kind != 3; ++kind)
     for (int m = 0; m != 4; ++m)
     for (int integrand : {0, 3})
+    for (T target : {T(0), T(0.12L)})
     {
-        std::string const id = tn + " A mpi kind=" + std::to_string(kind) + " mode=" + std::to_string(m) + " integrand=" + std::to_string(integrand);
+        std::string const id = tn + " A mpi kind=" + std::to_string(kind) + " mode=" + std::to_string(m) + " integrand=" + std::to_string(integrand) + " target=" + vf::dec(target);
         if (!r.want(id)) continue;
         r.eval();
         g_integrand = integrand;
@@ -196,19 +197,19 @@ static void part_a(report& r)
             if (kind == 0)
             {
                 using C = hep::plain_chkpt_with_rng<E, T>;
-                texts[rank] = text_of(hep::mpi_plain(MPI_COMM_WORLD, hep::make_integrand<T>(pf<T>(), 1), calls, hep::make_plain_chkpt<T, E>(E()), rec_mpi_cb<C>{hep::mpi_callback<C>(g_modes[m], file), &seen}));
+                texts[rank] = text_of(hep::mpi_plain(MPI_COMM_WORLD, hep::make_integrand<T>(pf<T>(), 1), calls, hep::make_plain_chkpt<T, E>(E()), rec_mpi_cb<C>{hep::mpi_callback<C>(g_modes[m], file, target), &seen}));
             }
             else if (kind == 1)
             {
                 using C = hep::vegas_chkpt_with_rng<E, T>;
-                texts[rank] = text_of(hep::mpi_vegas(MPI_COMM_WORLD, hep::make_integrand<T>(pf<T>(), 1), calls, hep::make_vegas_chkpt<T, E>(4, T(1.5), E()), rec_mpi_cb<C>{hep::mpi_callback<C>(g_modes[m], file), &seen}));
+                texts[rank] = text_of(hep::mpi_vegas(MPI_COMM_WORLD, hep::make_integrand<T>(pf<T>(), 1), calls, hep::make_vegas_chkpt<T, E>(4, T(1.5), E()), rec_mpi_cb<C>{hep::mpi_callback<C>(g_modes[m], file, target), &seen}));
             }
             else
             {
                 using C = hep::multi_channel_chkpt_with_rng<E, T>;
                 vf::pl_map<T> map; map.split = {T(0.25), T(0.5), T(0.75)};
                 texts[rank] = text_of(hep::mpi_multi_channel(MPI_COMM_WORLD, hep::make_multi_channel_integrand<T>(mf<T>(), 1, map, 1, 3), calls,
-                    hep::make_multi_channel_chkpt<T, E>(weight_pattern<T>(3, 3), T(0.01L), T(0.25), E()), rec_mpi_cb<C>{hep::mpi_callback<C>(g_modes[m], file), &seen}));
+                    hep::make_multi_channel_chkpt<T, E>(weight_pattern<T>(3, 3), T(0.01L), T(0.25), E()), rec_mpi_cb<C>{hep::mpi_callback<C>(g_modes[m], file, target), &seen}));
             }
         });
         if (!out.ok) { r.violate("mpi-run-failed", id, id + ": " + out.what); continue; }
